@@ -228,6 +228,13 @@ def _is_one_line_assert(lines, ln):
     return st.startswith("assert(") and st.endswith(");")
 
 
+def _span_text(lines, sp):
+    ls, cs, le, ce = sp
+    if ls == le:
+        return lines[ls - 1][cs - 1:ce - 1]
+    return lines[ls - 1][cs - 1:]
+
+
 def _conditional(m, lines, obl, extra):
     """Third pass: which `ok` obligations of a function are proved only DOWNSTREAM of a failed check?
 
@@ -240,7 +247,8 @@ def _conditional(m, lines, obl, extra):
     reported undecided by ./check (exit 2), never OK and never VIOLATION.
 
     Per function with failures located in it:
-      (c) failed invariant / loop-ensures clauses -> a variant in which exactly those clause spans read `true`
+      (c) failed invariant / loop-ensures clauses -> a variant in which exactly those clause spans read `true`, and
+          failed preconditions of proof-lemma calls (`lemma_*(..)`) -> the call reads `()`
           (together with the postcondition groups and one-line hint asserts that _unmask removed); every labelled
           obligation that fails in the variant but was ok depends on the removed clause -> conditional.  Iterated,
           because a clause uncovered in one round is assumed again in the next.
@@ -278,9 +286,12 @@ def _conditional(m, lines, obl, extra):
                 return "post"
             if "assertion failed" in msg and _is_one_line_assert(lines, e["line"]) and e["line"] not in region:
                 return "assert1"
+            if "precondition not satisfied" in msg and e.get("span") and _span_text(lines, e["span"]).startswith("lemma_"):
+                return "lemma_pre"      # a proof-lemma call (all lemmas of the units are named lemma_*): can be taken out
             return "hard"
         hard = [(lab, e) for lab, e in errs if kind(e) == "hard"]
-        inv = {tuple(e["span"]): lab for lab, e in errs if kind(e) == "inv" and e.get("span")}
+        inv = {tuple(e["span"]): lab for lab, e in errs if kind(e) in ("inv", "lemma_pre") and e.get("span")}
+        repl = {tuple(e["span"]): ("()" if kind(e) == "lemma_pre" else "true") for lab, e in errs if e.get("span")}
         inv_nospan = [(lab, e) for lab, e in errs if kind(e) == "inv" and not e.get("span")]
         hard += inv_nospan
         reason_hard = None
@@ -305,10 +316,11 @@ def _conditional(m, lines, obl, extra):
             for ln in dead:
                 var[ln - 1] = "// [cond] " + lines[ln - 1].strip()
             for (ls, cs, le, ce) in sorted(removed_spans, reverse=True):
+                word = repl.get((ls, cs, le, ce), "true")
                 if ls == le:
-                    var[ls - 1] = var[ls - 1][:cs - 1] + "true" + var[ls - 1][ce - 1:]
+                    var[ls - 1] = var[ls - 1][:cs - 1] + word + var[ls - 1][ce - 1:]
                 else:
-                    var[ls - 1] = var[ls - 1][:cs - 1] + "true"
+                    var[ls - 1] = var[ls - 1][:cs - 1] + word
                     for k in range(ls + 1, le):
                         var[k - 1] = ""
                     var[le - 1] = var[le - 1][ce - 1:]
@@ -316,7 +328,7 @@ def _conditional(m, lines, obl, extra):
                 f.write("\n".join(var) + "\n")
             res = _run_verus(vfile_base, list(extra) + ["--verify-function", fk, "--verify-root"])
             vfile = os.path.basename(vfile_base)
-            why = "proved only under the loop invariant clause(s) of %s that failed: %s" % (
+            why = "proved only under the loop invariant clause(s) / lemma call(s) of %s that failed: %s" % (
                 fk, ", ".join("%s@%d" % (lab, sp[0]) for sp, lab in sorted(removed_spans.items())))
             for d in res["diags"]:
                 c = classify(d)
@@ -350,8 +362,9 @@ def _conditional(m, lines, obl, extra):
                     obl[lab].setdefault("conditional", [])
                     if why not in obl[lab]["conditional"]:
                         obl[lab]["conditional"].append(why)
-                if k2 == "inv":
+                if k2 in ("inv", "lemma_pre"):
                     inv.setdefault(tuple(e2["span"]), lab or body_lab)
+                    repl[tuple(e2["span"])] = "()" if k2 == "lemma_pre" else "true"
                 elif k2 == "hard":
                     reason_hard = "%s: without the failed invariant clause, %s (line %d) fails and is assumed by Verus on the rest of the path" % (
                         fk, msg, p0["line_start"])
